@@ -58,6 +58,131 @@ def clauses(spec, m):
     return None
 
 
+SPATIAL_ARCH = """arch:
+  nodes:
+  - !Memory
+    name: MainMemory
+    size: inf
+    leak_power: 0
+    area: 0
+    tensors: {{keep: ~Intermediates, may_keep: All}}
+    actions:
+    - {{name: read, energy: {mme}, throughput: inf}}
+    - {{name: write, energy: {mme}, throughput: inf}}
+  - !Memory
+    name: GlobalBuffer
+    size: {glb}
+    leak_power: 0
+    area: 0
+    tensors: {{keep: All}}
+    actions:
+    - {{name: read, energy: 1, throughput: inf}}
+    - {{name: write, energy: 1, throughput: inf}}
+  - !Container
+    name: MACArray
+    spatial:
+    - name: X
+      fanout: {fanout}
+      loop_bounds:
+      - {{expression: {rv}, operator: "{op}", value: {val}}}
+  - !Compute
+    name: MAC
+    leak_power: 0
+    area: 0
+    actions:
+    - {{name: compute, energy: 1, throughput: 1}}
+"""
+OPS = {">=": lambda a, b: a >= b, ">": lambda a, b: a > b, "<=": lambda a, b: a <= b, "<": lambda a, b: a < b, "==": lambda a, b: a == b}
+
+
+def tree_paths(node, prefix=()):
+    """node lists on every root -> Compute path of a returned LoopTree"""
+    from accelforge.frontend.mapping.mapping import Compute, Nested, Split
+    cur = list(prefix)
+    for n in node.nodes:
+        if isinstance(n, Split):
+            for child in n.nodes:
+                yield from tree_paths(child, tuple(cur))
+            return
+        if isinstance(n, Nested):
+            yield from tree_paths(n, tuple(cur))
+            return
+        cur.append(n)
+        if isinstance(n, Compute):
+            yield cur
+            return
+
+
+def check_constrained(mapping, bounds, fanout, rv_c, op, val):
+    """problems of one returned mapping of the spatial-array family: perfect factorisation, every rank fully iterated, one compute,
+       spatial iterations within the fanout, the loop-bound constraint on the spatial loop over rv_c"""
+    from accelforge.frontend.mapping.mapping import Loop, Spatial
+    problems, ncomp = [], 0
+    for path in tree_paths(mapping):
+        ncomp += 1
+        tile = dict(bounds)
+        sp_iters, sp_total = 1, 1
+        for n in path:
+            if not isinstance(n, Loop):
+                continue
+            rv, ts = str(n.rank_variable), n.tile_shape
+            try:
+                ok = ts is not None and int(ts) == ts and int(ts) >= 1 and tile[rv] % int(ts) == 0
+            except Exception:  # noqa
+                ok = False
+            if not ok:
+                problems.append(f"loop over {rv} with tile shape {ts} does not perfectly factorise the enclosing tile {tile.get(rv)}")
+                continue
+            iters = tile[rv] // int(ts)
+            tile[rv] = int(ts)
+            if isinstance(n, Spatial):
+                sp_total *= iters
+                if rv == rv_c:
+                    sp_iters *= iters
+        problems += [f"rank variable {rv} not fully iterated (innermost tile {t})" for rv, t in tile.items() if t != 1]
+        if sp_total > fanout:
+            problems.append(f"spatial loops use {sp_total} instances of a fanout-{fanout} array")
+        if not OPS[op](sp_iters, val):
+            problems.append(f"the spatial loop over {rv_c} has {sp_iters} iteration(s) but the architecture requires {op} {val}")
+    if ncomp != 1:
+        problems.append(f"the Einsum is computed on {ncomp} paths")
+    return problems
+
+
+def constraint_case(af, d, crng, k, override=None):
+    """one random spatial-array spec with a loop-bound constraint, mapped by the real mapper -> dict (res is None when the mapper raised)"""
+    from accelforge.mapper.FFM.main import map_workload_to_arch
+    M, KN = crng.choice([4, 8, 8, 12, 16]), crng.choice([2, 4, 6])
+    fanout = crng.choice([2, 4, 4, 8])
+    rv_c = crng.choice(["m", "m", "n0", "n1"])
+    op = crng.choice([">=", ">=", ">", "<=", "<", "=="])
+    ext = M if rv_c == "m" else KN
+    cands = [v for v in range(1, fanout + 1) if ext % v == 0]
+    val = crng.choice(cands)
+    if op == ">" and val == max(cands):
+        val = min(cands)
+    if op == "<" and val == 1:
+        val = 2
+    mme, glb = crng.choice([10, 100]), crng.choice(["inf", 256, 512])
+    if override:
+        op, val = override
+    arch = SPATIAL_ARCH.format(mme=mme, glb=glb, fanout=fanout, rv=rv_c, op=op, val=val)
+    (d / "ca.yaml").write_text(arch)
+    out = {"key": json.dumps([M, KN, fanout, rv_c, op, val, mme, glb], default=str), "M": M, "KN": KN, "fanout": fanout, "rv": rv_c, "op": op, "val": val, "arch": arch,
+           "res": None, "err": None, "mme": mme, "glb": glb}
+    cwd = os.getcwd()
+    os.chdir(d)
+    try:
+        sp = af.Spec.from_yaml(str(d / "ca.yaml"), af.examples.workloads.basic.matmuls, jinja_parse_data={"N_EINSUMS": 1, "M": M, "KN": KN})
+        sp.mapper.metrics = af.Metrics.ENERGY | af.Metrics.LATENCY if k % 2 else af.Metrics.ENERGY
+        out["res"] = map_workload_to_arch(sp, print_progress=False)
+    except Exception as ex:  # noqa
+        out["err"] = f"{type(ex).__name__}: {str(ex)[:160]}"
+    finally:
+        os.chdir(cwd)
+    return out
+
+
 def run(ck):
     af, evaluate_mapping = R.load()
     ck.prove()
@@ -102,6 +227,31 @@ def run(ck):
     ck.count("coq_checker_vs_twin_mismatches", len(mism))
     if mism and not ck.violations:
         ck.unexplained("broken-correspondence", {"mismatches": mism[:2]}, what="verified checker in_space and its python twin disagree on a returned mapping")
+    # loop-bound constraints on a spatial array (outside MiniForge: checked structurally on the returned LoopTree)
+    crng = ck.rng("constraints")
+    cd = {"specs": 0, "mappings_checked": 0, "ops": {}, "mapper_errors": 0}
+    for k in range(ck.n(8, 50)):
+        c = constraint_case(af, d, crng, k)
+        cd["specs"] += 1
+        cd["ops"][c["op"]] = cd["ops"].get(c["op"], 0) + 1
+        if c["res"] is None:
+            cd["mapper_errors"] += 1          # an exception is not an invalid returned mapping; C01 looks for a valid witness in that case
+            cd.setdefault("error_samples", [])
+            if len(cd["error_samples"]) < 4:
+                cd["error_samples"].append(f"{c['rv']} {c['op']} {c['val']} (M={c['M']}, KN={c['KN']}, fanout={c['fanout']}): {c['err']}")
+            ck.case(c["key"], nontrivial=False)
+            continue
+        res = c["res"]
+        ck.case(c["key"], nontrivial=True, sample={"M": c["M"], "KN": c["KN"], "fanout": c["fanout"], "constraint": f"{c['rv']} {c['op']} {c['val']}", "mappings": len(res.data)})
+        for j in range(len(res.data)):
+            cd["mappings_checked"] += 1
+            probs = check_constrained(res.mapping(j), {"m": c["M"], "n0": c["KN"], "n1": c["KN"]}, c["fanout"], c["rv"], c["op"], c["val"])
+            if probs:
+                ck.failing_input({"arch_yaml": c["arch"], "workload": "examples/workloads/basic/matmuls.yaml", "jinja": {"N_EINSUMS": 1, "M": c["M"], "KN": c["KN"]}, "mapping_index": j,
+                                  "problems": probs[:5], "mapping": [getattr(n, "compact_str", lambda: str(n))() for n in next(tree_paths(res.mapping(j)), [])]},
+                                 what=f"returned mapping {j} (M={c['M']}, KN={c['KN']}, fanout {c['fanout']}, constraint {c['rv']} {c['op']} {c['val']}): {probs[0]}")
+                break
+    dist["constraint_stream"] = cd
     return ck.finish(
         rule="random single-Einsum specs as in C01 (keep / may_keep sets, finite memories, a share of them capacity-bound); every mapping returned by map_workload_to_arch for four metric sets "
              "(eval_in_detail on and off) is checked by the verified checker and re-evaluated by the real model; non-trivial = the spec is capacity-bound or has keep constraints",
